@@ -145,6 +145,7 @@ Section Gen.
   Definition g_attr (var : xvar) (x : value) : list (qname * wval) :=
     match x with
     | VNone => []
+    | VMap mm => map (fun kv => (fst kv, WP (PStr (snd kv)))) mm     (* an attribute map: one attribute per entry *)
     | _ => if is_array x && negb (py_truthy x) then []
            else if ign && opt_skip var x then []
            else [(v_qname var, enc (v_format var) x)]
@@ -256,7 +257,7 @@ Section Gen.
   Record class_facts (m : xmeta) : Prop := {
     cf_choices : m_choices m = [];
     cf_wildcards : m_wildcards m = [];
-    cf_any : m_any_attributes m = [];
+    cf_any : m_any_attributes m = [] \/ exists av, m_any_attributes m = [av] /\ wf_anyattr av = true;
     cf_wrappers : forallb (fun e => negb (match assoc (fst e) (m_wrappers m) with Some _ => true | None => false end)
                          && forallb (fun v => match v_wrapper_qname v with
                                               | Some w => match assoc w (m_wrappers m) with Some _ => true | None => false end
@@ -283,7 +284,7 @@ Section Gen.
     constructor.
     - destruct (m_choices m); [reflexivity|discriminate].
     - destruct (m_wildcards m); [reflexivity|discriminate].
-    - destruct (m_any_attributes m); [reflexivity|discriminate].
+    - destruct (m_any_attributes m) as [|av [|? ?]]; [left; reflexivity|right; exists av; split; [reflexivity|exact H3]|discriminate].
     - exact H4.
     - exact I.
     - apply negb_true_iff. exact H6.
@@ -309,27 +310,36 @@ Section Gen.
   Qed.
 
   Lemma avars_eq m : wf_class m = true ->
-    get_attribute_vars m = sort_by_index (map snd (m_attributes m)).
-  Proof.
-    intros H. destruct (wf_class_inv m H). unfold get_attribute_vars. rewrite cf_any0. reflexivity.
-  Qed.
+    get_attribute_vars m = sort_by_index (m_any_attributes m ++ map snd (m_attributes m)).
+  Proof. reflexivity. Qed.
 
   Lemma allvars_eq m : wf_class m = true ->
-    get_all_vars m = sort_by_index (map snd (m_attributes m) ++ flat_map snd (m_elements m)
+    get_all_vars m = sort_by_index (m_any_attributes m ++ map snd (m_attributes m) ++ flat_map snd (m_elements m)
                                     ++ match m_text m with Some t => [t] | None => [] end).
   Proof.
     intros H. destruct (wf_class_inv m H). unfold get_all_vars.
-    rewrite cf_choices0, cf_wildcards0, cf_any0. reflexivity.
+    rewrite cf_choices0, cf_wildcards0. reflexivity.
   Qed.
 
+  (* an attribute field: declared, or the attribute map *)
+  Definition is_mapvar (m : xmeta) (var : xvar) : Prop := m_any_attributes m = [var] /\ wf_anyattr var = true.
   Lemma wf_class_avar m var : wf_class m = true -> In var (get_attribute_vars m) ->
-    wf_attr var = true /\ In (v_qname var, var) (m_attributes m).
+    (wf_attr var = true /\ In (v_qname var, var) (m_attributes m)) \/ is_mapvar m var.
   Proof.
     intros H Hin. rewrite (avars_eq m H) in Hin. apply (proj1 (sort_in _ _)) in Hin.
-    apply in_map_iff in Hin as [[q v] [E Hin]]. cbn [snd] in E. subst v.
-    destruct (wf_class_inv m H). pose proof cf_attributes0 as H8.
-    rewrite forallb_forall in H8. specialize (H8 _ Hin). cbn [fst snd] in H8.
-    apply andb_true_iff in H8 as [Hq Hw]. apply str_eqb_eq in Hq. rewrite Hq. split; assumption.
+    destruct (wf_class_inv m H).
+    apply in_app_or in Hin as [Hin|Hin].
+    - right. destruct cf_any0 as [E|[av [E Hw]]]; rewrite E in Hin; [destruct Hin|]. destruct Hin as [<-|[]]. split; assumption.
+    - left. apply in_map_iff in Hin as [[q v] [E Hin]]. cbn [snd] in E. subst v.
+      pose proof cf_attributes0 as H8.
+      rewrite forallb_forall in H8. specialize (H8 _ Hin). cbn [fst snd] in H8.
+      apply andb_true_iff in H8 as [Hq Hw]. apply str_eqb_eq in Hq. rewrite Hq. split; assumption.
+  Qed.
+  Lemma mapvar_in m var : wf_class m = true -> is_mapvar m var -> In var (get_attribute_vars m).
+  Proof. intros H [E _]. rewrite (avars_eq m H), E. apply sort_in. left; reflexivity. Qed.
+  Lemma declared_in m q var : wf_class m = true -> In (q, var) (m_attributes m) -> In var (get_attribute_vars m).
+  Proof.
+    intros H Hin. rewrite (avars_eq m H). apply sort_in. apply in_or_app. right. apply in_map_iff. exists (q, var). split; [reflexivity|exact Hin].
   Qed.
 
   Lemma in_flat_singletons (l : list (qname * list xvar)) var :
@@ -359,8 +369,9 @@ Section Gen.
   Proof.
     intros H Hin. rewrite (allvars_eq m H). apply sort_in.
     destruct Hin as [Hin|Hin].
-    - rewrite (avars_eq m H) in Hin. apply (proj1 (sort_in _ _)) in Hin. apply in_or_app. left; exact Hin.
-    - rewrite (evars_eq m H) in Hin. apply (proj1 (sort_in _ _)) in Hin. apply in_or_app. right; exact Hin.
+    - rewrite (avars_eq m H) in Hin. apply (proj1 (sort_in _ _)) in Hin.
+      apply in_app_or in Hin as [Hin|Hin]; [apply in_or_app; left; exact Hin|apply in_or_app; right; apply in_or_app; left; exact Hin].
+    - rewrite (evars_eq m H) in Hin. apply (proj1 (sort_in _ _)) in Hin. apply in_or_app. right. apply in_or_app. right; exact Hin.
   Qed.
 
   (* ---------------------------------------------------------------- instance facts *)
@@ -373,7 +384,7 @@ Section Gen.
   Proof.
     cbn [Fits.fits]. destruct o; try discriminate. intros H.
     apply andb_true_iff in H as [Hc H]. apply N.eqb_eq in Hc. subst c0.
-    destruct (u_meta u cl) as [m|]; [|discriminate]. peel H H2. peel H H1. peel H H0. peel H Hcont.
+    destruct (u_meta u cl) as [m|]; [|discriminate]. peel H Hmap. peel H H2. peel H H1. peel H H0. peel H Hcont.
     exists fields, m. repeat split.
     - apply (list_eqb_spec str_eqb str_eqb_eq). exact H.
     - intros e He. rewrite forallb_forall in H0. apply H0. exact He.
@@ -386,8 +397,15 @@ Section Gen.
   Proof.
     destruct n; [discriminate|]. cbn [Fits.fits]. destruct o; try discriminate. intros H.
     apply andb_true_iff in H as [Hc H]. apply N.eqb_eq in Hc. subst c0. cbn [cnil]. unfold cls_nillable.
-    destruct (u_meta u cl) as [m|] eqn:Em; [|discriminate]. peel H H2. peel H H1. peel H H0. peel H Hcont.
+    destruct (u_meta u cl) as [m|] eqn:Em; [|discriminate]. peel H Hmap. peel H H2. peel H H1. peel H H0. peel H Hcont.
     intros Hn. rewrite Hn in Hcont. exact Hcont.
+  Qed.
+
+  (* the value of the attribute map *)
+  Lemma fits_mapvar n cl fs m av : fits (S n) cl (VObj cl fs) = true -> u_meta u cl = Some m -> m_any_attributes m = [av] ->
+    fits_map ok m av (field_of fs av) = true.
+  Proof.
+    cbn [Fits.fits]. intros H Hm Ha. apply andb_true_iff in H as [_ H]. rewrite Hm in H. peel H Hmap. rewrite Ha in Hmap. exact Hmap.
   Qed.
 
   Lemma getattr_field cl fs m var :
@@ -506,6 +524,39 @@ Section Gen.
       + destruct (opt_skip var (VP p)); [reflexivity|].
         rewrite (encode_leaf t (v_format var) p Hf). reflexivity.
       + rewrite (encode_leaf t (v_format var) p Hf). reflexivity.
+  Qed.
+
+  (* the attribute map *)
+  Lemma wf_anyattr_inv var : wf_anyattr var = true ->
+    v_is KAttributes var = true /\ v_is KAttribute var = false /\ var_common var = true.
+  Proof.
+    unfold wf_anyattr. intros H. peel H H7. peel H H6. peel H H5. peel H H4. peel H H3. peel H H2. peel H H1.
+    split; [exact H|]. split; [|exact H1]. unfold v_is in *. destruct (v_kind var); try discriminate H; reflexivity.
+  Qed.
+  Lemma fits_map_inv m var x : fits_map ok m var x = true ->
+    exists mm, x = VMap mm /\ NoDup (map fst mm)
+      /\ forall kv, In kv mm -> match_namespace var (fst kv) = true /\ assoc (fst kv) (m_attributes m) = None
+                               /\ reserved_name (fst kv) = false /\ map_value_ok ok (snd kv) = true.
+  Proof.
+    unfold fits_map. destruct x as [| | | | | |mm]; try discriminate. intros H. peel H H1.
+    exists mm. split; [reflexivity|]. split; [apply nodup_by_str; exact H|].
+    intros kv Hkv. rewrite forallb_forall in H1. specialize (H1 kv Hkv). peel H1 G4. peel H1 G3. peel H1 G2.
+    repeat split; try assumption.
+    - destruct (assoc (fst kv) (m_attributes m)); [discriminate|reflexivity].
+    - apply negb_true_iff. exact G3.
+  Qed.
+  Lemma attr_step_map cl fs m var :
+    map fst fs = map v_name (get_all_vars m) -> In var (get_all_vars m) ->
+    wf_anyattr var = true -> fits_map ok m var (field_of fs var) = true ->
+    attr_step c u (VObj cl fs) ign var
+    = Ok (map (fun a => WAttr (fst a) (snd a)) (g_attr var (field_of fs var))).
+  Proof.
+    intros Hn Hin Hw Hf. destruct (wf_anyattr_inv var Hw) as [_ [Hk _]].
+    destruct (fits_map_inv m var _ Hf) as [mm [Ex _]].
+    unfold attr_step. rewrite Hk.
+    assert (Ea : assoc (v_name var) fs = Some (VMap mm)).
+    { unfold field_of in Ex. destruct (assoc (v_name var) fs); [rewrite Ex; reflexivity|discriminate Ex]. }
+    rewrite Ea, Ex. cbn [g_attr]. rewrite map_map. reflexivity.
   Qed.
 
   (* ---------------------------------------------------------------- next_value without sequence groups *)
@@ -970,14 +1021,25 @@ Section Gen.
     split; [exact H|]. split; [exact H1|].
     destruct (u_meta u k) as [mk|]; [|discriminate]. destruct (u_meta u kd) as [mkd|]; [|discriminate].
     destruct (m_target_qname mk) as [[|ch t']|] eqn:Et; try discriminate.
-    peel H2 G6. peel H2 G5. peel H2 G4. peel H2 G3. peel H2 G2.
+    peel H2 G6. peel H2 G5. peel H2 G4. peel H2 G3. peel H2 G2. peel H2 G1.
     exists mk, mkd, (ch :: t'). split; [reflexivity|]. split; [reflexivity|]. split; [exact Et|]. split; [discriminate|].
-    split; [intros E; rewrite <- E, str_eqb_refl in H2; discriminate H2|].
+    split; [intros E; rewrite <- E, str_eqb_refl in G1; discriminate G1|].
     split.
     { intros E. rewrite E in G2. cbn [ostr_eqb opt_eqb] in G2. rewrite str_eqb_refl in G2. discriminate G2. }
     split.
     { destruct (sub_lookup u kd (ch :: t')) as [k'|]; [|discriminate]. apply N.eqb_eq in G3. subst k'. reflexivity. }
     split; [destruct (c_from_qname c (ch :: t')); [discriminate|reflexivity]|]. split; assumption.
+  Qed.
+
+  (* the subclass has no attribute map that would capture xsi:type *)
+  Lemma derived_ok_noxsi var kd k mk : derived_ok var kd k = true -> u_meta u k = Some mk ->
+    find_any_attributes mk XSI_TYPE = None.
+  Proof.
+    unfold derived_ok. intros H Hmk. peel H H2. rewrite Hmk in H2.
+    destruct (u_meta u kd) as [mkd|]; [|discriminate].
+    destruct (m_target_qname mk) as [[|ch t']|]; try discriminate.
+    peel H2 G6. peel H2 G5. peel H2 G4. peel H2 G3. peel H2 G2. peel H2 G1.
+    destruct (find_any_attributes mk XSI_TYPE); [discriminate|reflexivity].
   Qed.
 
   (* the subclasses of a class reachable from a well-formed class are well-formed *)
@@ -1014,10 +1076,10 @@ Section Gen.
     intros Hwc. destruct (wf_class_inv m Hwc) as [F1 F2 F3 F4 F5 F6 F7 F8 F9 F10 F11 F12 F13].
     rewrite (evars_eq m Hwc). apply sort_nodup_map.
     rewrite (allvars_eq m Hwc) in F13.
-    assert (H : NoDup (map v_index (map snd (m_attributes m) ++ flat_map snd (m_elements m)
+    assert (H : NoDup (map v_index (m_any_attributes m ++ map snd (m_attributes m) ++ flat_map snd (m_elements m)
                                     ++ match m_text m with Some t => [t] | None => [] end))).
     { eapply Permutation.Permutation_NoDup; [|exact F13]. apply Permutation.Permutation_map. apply sort_perm. }
-    rewrite map_app in H. apply NoDup_app_r in H. exact H.
+    rewrite map_app in H. apply NoDup_app_r in H. rewrite map_app in H. apply NoDup_app_r in H. exact H.
   Qed.
 
   (* ---------------------------------------------------------------- sequence groups *)
@@ -1456,9 +1518,11 @@ Section Gen.
     (* attributes *)
     unfold next_attribute.
     rewrite (concatM_flat _ (fun var => map (fun a => WAttr (fst a) (snd a)) (g_attr var (field_of fs var)))).
-    2:{ intros var Hin. destruct (wf_class_avar m var Hwc Hin) as [Hwa Hina].
-        apply (attr_step_ok cl fs m var Hnames (in_allvars m var Hwc (or_introl Hin)) Hwa).
-        apply (Hfa _ Hina). }
+    2:{ intros var Hin. destruct (wf_class_avar m var Hwc Hin) as [[Hwa Hina]|[Hav Hwv]].
+        - apply (attr_step_ok cl fs m var Hnames (in_allvars m var Hwc (or_introl Hin)) Hwa).
+          apply (Hfa _ Hina).
+        - apply (attr_step_map cl fs m var Hnames (in_allvars m var Hwc (or_introl Hin)) Hwv).
+          apply (fits_mapvar n cl fs m var Hfit Hm Hav). }
     cbn [gbind].
     (* the field values *)
     pose proof (class_pairs_fits _ cl fs m Hwc Hnames Hfe) as Hps.
@@ -1706,6 +1770,7 @@ Section Gen.
   Definition e_attr (var : xvar) (x : value) : list (XmlNs.qname * list atom) :=
     match x with
     | VNone => []
+    | VMap mm => map (fun kv => (Bind.split_qname (fst kv), [AText (snd kv)])) mm
     | _ => if is_array x && negb (py_truthy x) then []
            else if ign && opt_skip var x then []
            else [(Bind.split_qname (v_qname var), e_atoms (v_format var) x)]
